@@ -30,7 +30,8 @@ def _inc(target: str, opts: dict | None = None, colon=False) -> str:
 HAZARDS = [
     "missing_include", "dir_include", "undecodable_include", "nul_bytes_include", "empty_include", "self_include",
     "cycle2", "cycle3", "deep_chain", "long_name_include", "bad_encoding", "nested_in_directive", "include_twice",
-    "long_link", "dir_link", "odd_links", "literal_include_binary", "include_md_doc",
+    "long_link", "dir_link", "odd_links", "literal_include_binary", "include_md_doc", "discarded_body",
+    "discarded_body", "long_line",
 ]
 INV_HAZARDS = ["inv_missing", "inv_dir", "inv_bad_header", "inv_not_compressed", "inv_corrupt_zlib", "inv_bad_utf8",
                "inv_truncated", "inv_empty", "inv_ok", "inv_ok", "inv_ok"]
@@ -105,6 +106,27 @@ def apply(r, proj: dict, front_end: str, n: int) -> list[str]:
         elif h == "literal_include_binary":
             files["inc/bin2.inc"] = {"hex": "00010203fffefd"}
             _append(files, doc, _inc(rel("inc/bin2.inc"), {"literal": ""}))
+        elif h == "discarded_body":
+            # a directive that parses its body into a throw-away node and then rejects it: whatever the body
+            # registered with the document (footnotes, targets, references, substitution uses) is left detached
+            inner = r.choice(["[^dfn]: a footnote defined inside\n\ntext[^dfn]", "(discarded-target)=\n## Heading inside",
+                              "[ref-9]: https://example.com/9\n\n[x][ref-9] text[^a]", "{{ key1 }} [](#discarded-target)",
+                              "```{note}\n[^nfn]: nested footnote\n```\n\nuse[^nfn]"])
+            _append(files, doc, r.choice([
+                f"```{{figure}} img.png\n\n- not a paragraph caption\n\n{inner}\n```",
+                f"```{{figure-md}}\nno image here\n\n{inner}\n\nthird block\n```",
+                f"```{{list-table}}\n\n{inner}\n```",
+                f"```{{table}} T\n\n{inner}\n```",
+                f"```{{csv-table}} T\n:header: {inner.splitlines()[0]}\n\na,b\n```",
+                f"```{{sidebar}}\n\n{inner}\n```",
+                f"```{{epigraph}}\n```\n\n{inner}",
+                f"```{{topic}}\n{inner}\n```",
+            ]) + "\n\nafter[^dfn] [](#discarded-target)")
+        elif h == "long_line":
+            # docutils refuses a source with a line longer than line_length_limit (10 000) before any rendering
+            n = r.choice([10_001, 10_050, 25_000])
+            _append(files, doc, r.choice(["x" * n, "[^lfn]: " + "y " * (n // 2), "# " + "h" * n,
+                                          "```{note}\n" + "z" * n + "\n```"]))
         elif h == "include_md_doc":
             other = r.choice([d for d in docs if d != doc] or docs)
             _append(files, doc, _inc(rel(other), r.choice([None, {"relative-docs": "."}, {"relative-images": ""}])))
